@@ -6,6 +6,7 @@ package main
 import (
 	"bytes"
 	"encoding/base64"
+	"encoding/xml"
 	"errors"
 	"fmt"
 	"io"
@@ -99,6 +100,7 @@ func (c *Ctx) genC09() {
 	}
 	c.c09Fuzz()
 	c.c09Bombs()
+	c.c09Metadata()
 	c.c09Resolver()
 	c.c09KeyDescriptors()
 }
@@ -271,6 +273,103 @@ func (c *Ctx) c09Fuzz() {
 		}
 		c.emitOneWay("fuzz", []string{encStr(t.name)}, "done", "")
 	}
+}
+
+// c09Metadata: metadata documents assembled from parts — aggregates (EntitiesDescriptor, possibly nested) and single entities with
+// every subset of their optional attributes (good and malformed values) and optional children — through every metadata-consuming entry point.
+func (c *Ctx) c09Metadata() {
+	srv, err := samlidp.New(samlidp.Options{URL: mustURL("https://idp.example.com"), Key: c.key("idp").Key, Certificate: c.key("idp").Cert, Store: &samlidp.MemoryStore{}, Logger: logger.DefaultLogger})
+	must(err)
+	attrVals := map[string][]string{
+		"validUntil":    {"2030-01-01T00:00:00Z", "2030-01-01T00:00:00.123Z", "not-a-time", ""},
+		"cacheDuration": {"PT1H", "P1D", "PT0.5S", "nonsense", ""},
+		"ID":            {"_abc", ""},
+		"Name":          {"urn:federation", ""},
+		"entityID":      {"https://sp.example.com/metadata", ""},
+	}
+	optAttrs := func(names []string, mask int, variant int) string {
+		out := ""
+		for i, n := range names {
+			if mask&(1<<uint(i)) != 0 {
+				vs := attrVals[n]
+				v := vs[0]
+				if variant > 0 {
+					v = vs[(variant+i)%len(vs)]
+				}
+				out += fmt.Sprintf(` %s="%s"`, n, v)
+			}
+		}
+		return out
+	}
+	cert := base64.StdEncoding.EncodeToString(c.key("sp").Cert.Raw)
+	roles := []string{
+		``,
+		`<SPSSODescriptor protocolSupportEnumeration="urn:oasis:names:tc:SAML:2.0:protocol"><AssertionConsumerService Binding="urn:oasis:names:tc:SAML:2.0:bindings:HTTP-POST" Location="https://sp.example.com/acs" index="1"/></SPSSODescriptor>`,
+		`<SPSSODescriptor protocolSupportEnumeration="urn:oasis:names:tc:SAML:2.0:protocol" validUntil="2030-01-01T00:00:00Z"><KeyDescriptor use="encryption"><KeyInfo xmlns="http://www.w3.org/2000/09/xmldsig#"><X509Data><X509Certificate>` + cert + `</X509Certificate></X509Data></KeyInfo></KeyDescriptor><AssertionConsumerService Binding="urn:oasis:names:tc:SAML:2.0:bindings:HTTP-POST" Location="https://sp.example.com/acs" index="1"/></SPSSODescriptor>`,
+		`<IDPSSODescriptor protocolSupportEnumeration="urn:oasis:names:tc:SAML:2.0:protocol" cacheDuration="PT1H"><KeyDescriptor><KeyInfo xmlns="http://www.w3.org/2000/09/xmldsig#"></KeyInfo></KeyDescriptor><SingleSignOnService Binding="urn:oasis:names:tc:SAML:2.0:bindings:HTTP-Redirect" Location="https://idp.example.com/sso"/></IDPSSODescriptor>`,
+		`<SPSSODescriptor><AssertionConsumerService/></SPSSODescriptor><Organization/><ContactPerson/>`,
+	}
+	const ns = ` xmlns="urn:oasis:names:tc:SAML:2.0:metadata"`
+	entity := func(mask, variant, role int) string {
+		return `<EntityDescriptor` + ns + optAttrs([]string{"entityID", "validUntil", "cacheDuration", "ID"}, mask, variant) + `>` + roles[role%len(roles)] + `</EntityDescriptor>`
+	}
+	var docs []string
+	for mask := 0; mask < 16; mask++ {
+		for variant := 0; variant < 4; variant++ {
+			for role := range roles {
+				docs = append(docs, entity(mask, variant, role))
+			}
+			// aggregates: the same attribute subsets on EntitiesDescriptor, flat and nested
+			a := optAttrs([]string{"validUntil", "cacheDuration", "ID", "Name"}, mask, variant)
+			inner := entity(15, 0, 1)
+			docs = append(docs, `<EntitiesDescriptor`+ns+a+`>`+inner+`</EntitiesDescriptor>`)
+			docs = append(docs, `<EntitiesDescriptor`+ns+a+`></EntitiesDescriptor>`)
+			docs = append(docs, `<EntitiesDescriptor`+ns+`><EntitiesDescriptor`+a+`>`+inner+`</EntitiesDescriptor>`+entity(mask, variant, 2)+`</EntitiesDescriptor>`)
+		}
+	}
+	type entry struct {
+		name string
+		run  func([]byte) string
+	}
+	entries := []entry{
+		{"samlsp.ParseMetadata", func(b []byte) string {
+			if _, err := samlsp.ParseMetadata(b); err != nil {
+				return "err"
+			}
+			return "ok"
+		}},
+		{"xml.Unmarshal(EntitiesDescriptor)", func(b []byte) string {
+			var v saml.EntitiesDescriptor
+			if err := xml.Unmarshal(b, &v); err != nil {
+				return "err"
+			}
+			return "ok"
+		}},
+		{"xml.Unmarshal(EntityDescriptor)", func(b []byte) string {
+			var v saml.EntityDescriptor
+			if err := xml.Unmarshal(b, &v); err != nil {
+				return "err"
+			}
+			return "ok"
+		}},
+		{"samlidp PUT /services", func(b []byte) string {
+			rec := httptest.NewRecorder()
+			srv.ServeHTTP(rec, httptest.NewRequest("PUT", "/services/x", bytes.NewReader(b)))
+			return fmt.Sprint(rec.Code)
+		}},
+	}
+	for _, d := range docs {
+		for _, e := range entries {
+			res := withTimeout(func() string { return safely(func() string { return e.run([]byte(d)) }) }, 10*time.Second)
+			orc := panicOracle(res, e.name)
+			c.count("c09-metadata:"+e.name, strings.SplitN(res, " ", 2)[0])
+			c.units++
+			if orc != "" {
+				c.emitOneWay("fuzz", []string{encStr(e.name), encBytes([]byte(d))}, res, orc)
+			}
+		}
+	}
+	c.emitOneWay("fuzz", []string{encStr("metadata-parts")}, "done", "")
 }
 
 func (c *Ctx) c09Bombs() {
